@@ -2,6 +2,8 @@ mod c01;
 mod c02;
 mod c03;
 mod c04;
+mod c06;
+mod c14;
 mod c18;
 
 use vkit::Property;
@@ -51,6 +53,29 @@ fn main() {
             "typed apply errors on arbitrary state pairs are allowed by the property and are tallied per error kind, not flagged",
         ],
         subs: c04::subs,
+        max_shards: 16,
+    },
+    Property {
+        id: "C06",
+        level: "exploration",
+        rule: "proptest: generated well-formed multi-instance states (incl. islands unreachable from the root). Per state: 3 construction orders with different edge-bucket layouts and one detour (state reached by applying diff(alt, target) to a mutated alt state) must give equal roots and equal WSC bytes; WorldlineState::state_root == Engine::snapshot().state_root == store root == accumulator root (hook); each warp's WSC bytes read back through WscFile::from_bytes + validate_wsc + WarpView rows to the same store content; 1-3 single semantic mutations (node type/add/delete, edge type/to/from/id, attachment presence/type/byte/length, portal open/move/close, instance root node, root key) classified by an independent reachability reference: root must change iff reachable content changes; all roots of a process are bucketed (birthday search) - two different reachable contents under one root, or one content under two roots, is a violation. Second sub-check: op sequences diff(a, walk(a)) accepted by the store are applied to the columnar accumulator (hook) and the roots compared. Non-trivial = >=2 instances, or an unreachable-only mutation, or atom payloads of unequal lengths.",
+        assumptions: &[
+            "reachability reference (edges from reachable nodes, Descend on reachable nodes and on edges leaving them) is written from docs/spec/merkle-commit.md",
+            "op sequences the store rejects are skipped and counted; the accumulator is internal API there",
+        ],
+        subs: c06::subs,
+        max_shards: 16,
+    },
+    Property {
+        id: "C14",
+        level: "exploration",
+        rule: "proptest: an honest generated tick (C01 generator, enforcement on) is first committed (no-false-positive direction), then exactly one candidate is made dishonest: one entry of its honest footprint is omitted (every access kind: node read incl. adjacency, node/edge attachment read, edge existence read; every op kind's node/edge/attachment write target), optionally followed by an executor panic, or it emits an op into another instance, or a non-system rule emits OpenPortal. The violator sits at its canonical position among the other rewrites and its work unit is placed on a generated worker of a scripted schedule (plus the unscripted run). Oracle: when the reference model admits the violator, commit must unwind with a FootprintViolation / FootprintViolationWithPanic payload naming exactly that access, rule and warp; state dump, ledger and root are those before the tick; the honest tick then commits on the same engine and equals the honest baseline. RNG-free: every non-instance op over 2 nodes x 2 edges (38 ops) applied to each of the 9 930 micro-universe states: every GraphView-observable location that changes (node, adjacency, node/edge attachment, edge existence) must be among echo_verif::op_write_targets(op). Non-trivial = violator not first among accepted, >=2 accepted, >=2 scripted workers busy / an observable change.",
+        assumptions: &[
+            "honest footprint attribution is my own reading of footprint_guard.rs docs and DECLARATIVE-RULE-AUTHORSHIP",
+            "instance-level ops are excluded from the attribution differential: their contract is the system-rule gate, not write targets",
+            "observable = what GraphView exposes (node, edges_from, node_attachment, edge_attachment, has_edge)",
+        ],
+        subs: c14::subs,
         max_shards: 16,
     },
     Property {
